@@ -2,6 +2,15 @@
 from gen import gen_entities
 from props._semprop import simple
 
+from common import prove
+
+MODULE = 'Proofs.Props.C06'
+THEOREMS = ['Facto.get_evalDecider_single', 'Facto.rule_cmp', 'Facto.Circuit.settle', 'Facto.Circuit.settled_fixpoint']
+
 
 def run(res, tier):
+    proved = prove(res, MODULE, THEOREMS)
     simple(res, tier, gen_entities, 64, 900, "seeded generator placing lamps, inserters, belts, pumps, power switches and train stops whose enable is a comparison, a general expression, a logical chain, or any()/all()/selection over a chest read through .output; chest contents are quantified like inputs")
+    if not proved:
+        res.violation({"reason": "a proof obligation of C06 no longer checks", "problems": res.proof_problems,
+                       "log": res.proof_log[-1500:], "obligation": MODULE}, failing_input=False)
